@@ -60,11 +60,18 @@ def gen_stats(ch, spec):
     cfg, ops = history_sim.gen_stats(ch, spec)
     cfg["diff_kind"] = "stats"
     cfg["normalise"] = True
+    if cfg["nstreams"] > 1:
+        # the receiver has one loss detector for all its streams; with two streams what it asks for depends on how
+        # their two sequence spaces lie relative to each other, which a pair does not preserve - and with suspending
+        # sends those requests would shift the arrival clock of everything behind them
+        cfg["send_suspend"] = 0.0
     cfg["wrap"] = []
     for st in cfg["streams"]:
         st["seq0"] = ch.randint("cfg", 0, 300, 1)
+        st["rtx_seq0"] = ch.randint("cfg", 0, 300, 2)
         st["ts0"] = ch.randint("cfg", 0, 100000, 1)
-        cfg["wrap"].append({"seq": ch.randint("cfg", 0, 400, 3), "ts": ch.randint("cfg", 0, 2000000, 3)})
+        cfg["wrap"].append({"seq": ch.randint("cfg", 0, 400, 3), "ts": ch.randint("cfg", 0, 2000000, 3),
+                            "rtx": ch.randint("cfg", 0, 40, 3)})
     return cfg, ops
 
 
@@ -72,6 +79,7 @@ def wrap_stats(cfg):
     c = copy.deepcopy(cfg)
     for st, w in zip(c["streams"], cfg["wrap"]):
         st["seq0"] = 65535 - w["seq"]
+        st["rtx_seq0"] = 65535 - w.get("rtx", 0)
         st["ts0"] = 0xFFFFFFFF - w["ts"]
     return c
 
@@ -206,6 +214,15 @@ def run(spec):
                 late = "both"
             elif la100 != lb100:
                 late = "one"
+        if (diff is not None and kind == "media" and cfg.get("hold_feedback") and late is None
+                and la[:min(len(la), len(lb))] == lb[:min(len(la), len(lb))]):
+            # with feedback held back, the repairs all land at the very end of the run; the jitter buffer releases one
+            # frame per arriving packet (known finding, C10), so which of the last complete frames is still waiting
+            # when the run stops depends on the order of the last retransmissions (numeric NACK order again)
+            rest = la[len(lb):] or lb[len(la):]
+            if len(rest) <= 3 and all(kind_of("(0, 0, " + r) == "frame" for r in rest):
+                wa.exempt["last_frames_still_waiting_for_one_more_packet"] += 1
+                diff = None
         if late == "both":
             wa.exempt["both_runs_had_a_packet_100_or_more_late"] += 1
         elif sub:
